@@ -261,7 +261,13 @@ fn run_replace(base: Instant, c: &InjCase) -> InjOut {
             for (s, w) in integrity(&p) {
                 v.push((format!("integrity:{s}"), w));
             }
-            if !workload_done(&p) {
+            // the one thing a damaged datagram may legitimately turn into: a Version Negotiation
+            // packet (version field zeroed) reaching a client that has not accepted any server packet
+            let vn_ended = p.client().lost.iter().any(|e| matches!(e, proto::ConnectionError::VersionMismatch))
+                && p.client().conn.stats().frame_rx.crypto + p.client().conn.stats().frame_rx.acks == 0;
+            if vn_ended {
+                // allowed by the property
+            } else if !workload_done(&p) {
                 for (s, w) in completion(&p) {
                     v.push((format!("no-recovery-from-damaged-datagram:{s}"), format!("{w}; {}", crate::scen::diagnose(&p))));
                 }
@@ -701,11 +707,12 @@ pub fn main(args: &Args) -> ! {
     // mutated copy arrives; the peers must recover
     {
         let mut cases2 = vec![];
-        for cfg in ["default", "retry"] {
-            for after in 0..(if thorough { 24 } else { 10 }) {
+        for cfg in ["default", "retry", "cid0", "cidlife"] {
+            let wide = cfg == "default" || cfg == "retry";
+            for after in 0..(if thorough { 40 } else if wide { 24 } else { 12 }) {
                 for m in muts.iter().filter(|m| match m {
-                    InjKind::Flip { pos, .. } => thorough || *pos == 0 || *pos == -1 || *pos == 1 || *pos == 6,
-                    InjKind::Truncate { len } => thorough || [0usize, 20, 26, 600].contains(len),
+                    InjKind::Flip { pos, .. } => thorough || wide || *pos == 0 || *pos == -1 || *pos == 1 || *pos == 6,
+                    InjKind::Truncate { len } => thorough || wide || [0usize, 20, 26, 600].contains(len),
                     _ => true,
                 }) {
                     cases2.push(InjCase { cfg, wl: Wl::W1, after, kind: m.clone() });
